@@ -489,6 +489,21 @@ def _shutdown(ctx: Ctx, c: Collector) -> None:
                     break
         if not iso:
             pr.append("a failing stop()/finalize() of one simulator ends the loop over the simulators: the remaining ones are never stopped and the event loop stays open")
+        # ... and the handler itself must not fail: a log call that formats a message built from the error's text (loguru applies
+        # str.format to the message as soon as it is given format arguments) raises KeyError / IndexError for a text with braces
+        import ast as _ast2
+        for n in _ast2.walk(fi.node):
+            if not isinstance(n, _ast2.ExceptHandler):
+                continue
+            for call_ in _ast2.walk(n):
+                if isinstance(call_, _ast2.Call) and isinstance(call_.func, _ast2.Attribute) and isinstance(call_.func.value, _ast2.Name) and call_.func.value.id in ("logger", "log", "logging") \
+                        and call_.func.attr in ("debug", "info", "warning", "error", "exception", "critical", "trace", "success") and call_.args \
+                        and (len(call_.args) > 1 or call_.keywords) and call_.func.value.id == "logger":
+                    msg = call_.args[0]
+                    runtime_text = any(isinstance(x, (_ast2.FormattedValue, _ast2.Name, _ast2.Call)) for x in _ast2.walk(msg))
+                    if runtime_text:
+                        pr.append(f"the handler logs a message that contains run-time text ({_ast2.unparse(msg)[:50]}...) together with format arguments (line {call_.lineno}): loguru formats it with str.format, "
+                                  "so an error text with braces raises inside the handler, the stop loop ends and the remaining simulators are never stopped")
     if not closes:
         pr.append("the event loop is never closed")
     elif stops:
